@@ -150,6 +150,10 @@ def nested_programs(tier, hi):
     progs += [("join", I, X, K), ("join", X, I, K), ("join", X, I, None), ("join", I, ("sel", X, K), ("lt", A, B)),
               ("dedup", ("join", ("proj", X, ("a",)), I, K)), ("join", ("join", X, I, K), Z, None), ("join", X, I, ("plit", False)),
               ("chain", ("join", X, I, K), Y)]
+    E0 = ("slice", X, 0, 0)
+    progs += [("join", E0, Z, None), ("join", Z, E0, None), ("chain", E0, Y), ("chain", Y, E0), ("dedup", E0), ("sel", E0, K),
+              ("join", ("slice", ("proj", X, ("a", "b")), None, 0), Z, ("lt", B, D)), ("dedup", ("join", ("slice", ("slice", X, 0, 2), 0, 0), Z, None)),
+              ("chain", ("slice", ("dedup", X), 0, 0), Y), ("join", ("dedup", E0), Z, None)]
     P, Q = ("leaf", "P"), ("leaf", "Q")
     progs += [("chain", P, Q), ("chain", Q, P), ("dedup", ("chain", P, Q)), ("chain", ("sel", P, K), Q),
               ("proj", ("chain", P, Q), ("a",)), ("chain", ("proj", X, ("a",)), ("proj", Q, ("a",))), ("join", ("chain", P, Q), Z, None)]
